@@ -346,7 +346,8 @@ def encoder_rules(run, r1, r2, f):
     if not okb:
         run.violation(r2, "generator::encode_dispatch_data|index-bit", "index_bit is not set exactly on the entries emitted in the vp_index > 0 branch", where(inner[0]))
     # last value per path must carry `stop`
-    stop_decl = [d for n in astq.walk(inner[0]["body"]) if n.get("k") == "DeclStmt" for d in n["decls"] if d["name"] == "stop"]
+    stop_decl = [d for n in astq.walk(inner[0]["body"]) if n.get("k") == "DeclStmt" for d in n["decls"] if d.get("init") is not None and any(
+        x.get("k") == "DeclRefExpr" and x["ref"]["name"].endswith("stop_bit") for x in astq.walk(d["init"]))]
     oks = bool(stop_decl) and any(x.get("k") == "DeclRefExpr" and x["ref"]["name"].endswith("stop_bit") for x in astq.walk(stop_decl[0]["init"])) \
         and any(x.get("member") == "back" for x in astq.walk(stop_decl[0]["init"]))
     last_vals = [v for _, v in idx_vals]
@@ -355,7 +356,8 @@ def encoder_rules(run, r1, r2, f):
     for k, v in pk.items():
         if k != pref or len(pk) == 1:
             last_vals.append(v[-1])
-    missing = [v for v in last_vals if not has_ref(v, "stop")]
+    stop_did = stop_decl[0]["did"] if stop_decl else None
+    missing = [v for v in last_vals if not any(x.get("k") == "DeclRefExpr" and x["ref"]["did"] == stop_did for x in astq.walk(v))]
     oks = oks and not missing and last_vals
     run.instance(r2, "encode_dispatch_data: the last value of every entry carries the stop flag of the class's last entry", where(inner[0]), ok=bool(oks), detail={"entry_ending_values": len(last_vals)})
     if not oks:
@@ -393,13 +395,16 @@ def decoder_rules(run, r1, r2, f, aug):
     for n in astq.walk(body):
         if n.get("k") == "DeclStmt":
             for d in n["decls"]:
-                if d["name"] == "fetch" and d.get("init") is not None:
+                if d.get("init") is not None and any(x.get("k") == "LambdaExpr" for x in astq.walk(d["init"])) and any(
+                        x.get("k") == "DeclRefExpr" and x["ref"]["name"].endswith("stop_bit") for x in astq.walk(d["init"])):
                     fetch = d
     if fetch is None:
         raise common.AnalysisBroken("decode_dispatch_data: fetch lambda not found")
     fb = [x for x in astq.walk(fetch["init"]) if x.get("k") == "LambdaExpr"][0]["lambda"]["body"]
-    sets_last = any(n.get("k") == "BinaryOperator" and n.get("op") == "=" and astq.refname(n["c"][0]) and astq.refname(n["c"][0]).endswith("last")
-                    and any(x.get("k") == "DeclRefExpr" and x["ref"]["name"].endswith("stop_bit") for x in astq.walk(n["c"][1])) for n in astq.walk(fb))
+    last_sets = [n for n in astq.walk(fb) if n.get("k") == "BinaryOperator" and n.get("op") == "=" and astq.strip(n["c"][0]).get("k") == "DeclRefExpr"
+                 and any(x.get("k") == "DeclRefExpr" and x["ref"]["name"].endswith("stop_bit") for x in astq.walk(n["c"][1]))]
+    sets_last = len(last_sets) == 1
+    last_did = astq.strip(last_sets[0]["c"][0])["ref"]["did"] if sets_last else None
     run.instance(r2, "decode_dispatch_data: every fetch records the stop bit of the value read", where(fetch.get("init")), ok=sets_last)
     if not sets_last:
         run.violation(r2, "decode_dispatch_data|fetch-stop", "fetch() does not set `last` from code & stop_bit", where(fetch["init"]))
@@ -426,7 +431,7 @@ def decoder_rules(run, r1, r2, f, aug):
         run.violation(r1, "decode_dispatch_data|per-class-reads", "%d values are read per class before the entries (the encoder emits 1)" % n_pre, where(cl[0]))
     # loop condition tests `last`
     c = lp.get("cond")
-    okc = c is not None and any(x.get("k") == "DeclRefExpr" and x["ref"]["name"].endswith("last") for x in astq.walk(c))
+    okc = c is not None and last_did is not None and any(x.get("k") == "DeclRefExpr" and x["ref"]["did"] == last_did for x in astq.walk(c))
     run.instance(r2, "decode_dispatch_data: the entry loop ends on the stop bit", where(lp), ok=okc)
     if not okc:
         run.violation(r2, "decode_dispatch_data|loop-stop", "the per-class entry loop does not test `last`", where(lp))
@@ -438,7 +443,16 @@ def decoder_rules(run, r1, r2, f, aug):
         if n.get("k") != "BinaryOperator" or n.get("op") != "=":
             return False
         l = astq.strip(n["c"][0])
-        return l is not None and l.get("k") == "UnaryOperator" and l.get("op") == "*" and any(x.get("k") == "DeclRefExpr" and x["ref"]["name"].endswith("decode_iter") for x in astq.walk(l))
+        if not (l is not None and l.get("k") == "UnaryOperator" and l.get("op") == "*"):
+            return False
+        # the decoded-words cursor: the local that is also the base of the static v-table pointer assignment
+        return any(x.get("k") == "DeclRefExpr" and x["ref"]["did"] in cursor for x in astq.walk(l))
+    cursor = set()
+    for n in astq.walk(body):
+        if n.get("k") == "BinaryOperator" and n.get("op") == "=" and any(x.get("k") == "MemberExpr" and x.get("member") == "static_vptr" for x in astq.walk(n["c"][0])):
+            for x in astq.walk(n["c"][1]):
+                if x.get("k") == "DeclRefExpr" and x["ref"].get("storage") == "local" and (x.get("t") or "").endswith("*"):
+                    cursor.add(x["ref"]["did"])
     stmts = lp["body"].get("c") or []
     top_fetch = sum(count(s, is_fetch) for s in stmts if s.get("k") != "IfStmt")
     ifs = [s for s in stmts if s.get("k") == "IfStmt"]
@@ -490,7 +504,7 @@ def decoder_rules(run, r1, r2, f, aug):
     for n in astq.walk(body):
         if n.get("k") == "BinaryOperator" and n.get("op") == "=":
             l = astq.strip(n["c"][0])
-            if l is not None and l.get("k") == "UnaryOperator" and l.get("op") == "*" and any(x.get("k") == "DeclRefExpr" and x["ref"]["name"] == "specs" for x in astq.walk(l)):
+            if l is not None and l.get("k") == "UnaryOperator" and l.get("op") == "*" and any(x.get("k") == "UnaryOperator" and x.get("op") == "++" for x in astq.walk(l)):
                 mem = [x["member"] for x in astq.walk(n["c"][1]) if x.get("k") == "MemberExpr" and x["member"] in ("ambiguous", "not_implemented")]
                 if mem:
                     appended.append((mem[0], n))
@@ -505,7 +519,9 @@ def decoder_rules(run, r1, r2, f, aug):
                     for s in astq.walk(aug["body"]):
                         if s.get("k") == "DeclStmt":
                             for d in s["decls"]:
-                                if d["name"] == "spec_size":
+                                i0 = astq.strip(d.get("init")) if d.get("init") is not None else None
+                                if i0 is not None and i0.get("k") == "CXXMemberCallExpr" and (i0.get("callee") or "").endswith("::size") and any(
+                                        x.get("k") == "MemberExpr" and x.get("member") == "specs" for x in astq.walk(i0)):
                                     env[d["did"]] = {"n": 1}
                     numbering[owner[0]] = astq.affine(n["c"][1], env, sym13)
     exp_order = sorted(numbering, key=lambda k: numbering[k].get(1, 0) if numbering[k] else 99)
